@@ -188,20 +188,19 @@ func NewChargePoint(id string, endpoint *ocppj.Client, client ws.Client) ChargeP
 	endpoint.SetDialect(ocpp.V16)
 
 	cp := chargePoint{
-		client:              endpoint,
-		confirmationHandler: make(chan ocpp.Response, 1),
-		errorHandler:        make(chan error, 1),
-		callbacks:           callbackqueue.New(),
+		client:         endpoint,
+		outcomeHandler: make(chan asyncOutcome, 2),
+		callbacks:      callbackqueue.New(),
 	}
 
 	// Callback invoked by dispatcher, whenever a queued request is canceled, due to timeout.
 	endpoint.SetOnRequestCanceled(cp.onRequestTimeout)
 
 	cp.client.SetResponseHandler(func(confirmation ocpp.Response, requestId string) {
-		cp.confirmationHandler <- confirmation
+		cp.outcomeHandler <- asyncOutcome{confirmation: confirmation}
 	})
 	cp.client.SetErrorHandler(func(err *ocpp.Error, details interface{}) {
-		cp.errorHandler <- err
+		cp.outcomeHandler <- asyncOutcome{err: err}
 	})
 	cp.client.SetRequestHandler(cp.handleIncomingRequest)
 	return &cp
